@@ -58,7 +58,7 @@ func runC01(c *Ctx, r *Report, tier string) {
 				ok, how = true, "conversion target parameter"
 			case strings.HasPrefix(recv, "Option.value(P0)") && (fname == "(*Option).empty"):
 				ok, how = true, "the option's own value"
-			case strings.HasPrefix(recv, "call:reflect.Indirect(call:reflect.New("):
+			case strings.HasPrefix(recv, "call:reflect.Indirect(call:reflect.New("), strings.HasPrefix(recv, "fresh("):
 				ok, how = true, "fresh value"
 			case (fname == "(*Group).scanStruct" || fname == "(*Group).scanSubGroupHandler" || fname == "(*Command).scanSubcommandHandler$1") && (strings.HasPrefix(recv, "call:(reflect.Value).Field(P1") || recv == "P0" || recv == "P1" || strings.HasPrefix(recv, "phi{")):
 				v := c.term(call.Call.Args[1])
@@ -74,7 +74,7 @@ func runC01(c *Ctx, r *Report, tier string) {
 		sites, _ := c.callersOf(fn)
 		for _, s := range sites {
 			t := c.term(s.Call.Common().Args[1])
-			ok := t == "Option.value(P0)" || strings.HasPrefix(t, "Arg.value(idx(parseState.positional(P0), 0))") || strings.HasPrefix(t, "call:reflect.Indirect(") || strings.HasPrefix(t, "call:reflect.New(") ||
+			ok := t == "Option.value(P0)" || strings.HasPrefix(t, "Arg.value(idx(parseState.positional(P0), 0))") || strings.HasPrefix(t, "fresh(") || strings.HasPrefix(t, "call:reflect.Indirect(") || strings.HasPrefix(t, "call:reflect.New(") ||
 				strings.HasPrefix(t, "call:(reflect.Value).Addr(P1)") || strings.HasPrefix(t, "call:(reflect.Value).Elem(P1)") || t == "P1" || strings.HasPrefix(t, "call:reflect.Indirect(call:reflect.New(")
 			r.Check(ok, "FUNNEL", c.fname(s.Fn), "target passed to "+name, c.ipos(s.Call), "Option.value / Arg.value / fresh / derived from the target: "+trunc(t, 60), "conversion writes into "+trunc(t, 100))
 		}
@@ -214,16 +214,10 @@ func runC01(c *Ctx, r *Report, tier string) {
 	for _, in := range c.instrs(cv, c.isCallTo("reflect.Append")) {
 		a := in.(*ssa.Call).Call.Args
 		es := sliceLitElems(a[len(a)-1])
-		ok := c.term(a[0]) == "P1" && len(es) == 1 && strings.HasPrefix(c.term(es[0]), "call:reflect.Indirect(call:reflect.New(invoke:Type.Elem(")
+		ok := c.term(a[0]) == "P1" && len(es) == 1 && strings.HasPrefix(c.term(es[0]), "fresh(invoke:Type.Elem(")
 		r.Check(ok, "STORE", cn, "slice: append(current value, converted element)", c.ipos(in), "reflect.Append(retval, elem)", "append operands are "+trunc(c.term(a[0]), 40)+", …")
 	}
-	nSplit := 0
-	for _, in := range c.instrs(cv, c.isCallTo("strings.SplitN", "strings.Split", "strings.Cut")) {
-		nSplit++
-		t := c.term(in.(*ssa.Call))
-		r.Check(t == `call:strings.SplitN(P0, ":", 2)`, "STORE", cn, "map: key and value separate at the first colon only", c.ipos(in), "strings.SplitN(val, \":\", 2)", "map entry is split with "+t+": a value containing ':' is truncated or dropped")
-	}
-	r.Check(nSplit == 1, "STORE", cn, "one map split", c.pos(cv.Pos()), "one", fmt.Sprintf("%d", nSplit))
+	c.ruleMapSplit(r, "STORE", cv)
 	okTrue := false
 	for _, in := range c.instrs(cv, c.isCallTo("(reflect.Value).SetBool")) {
 		if c.term(in.(*ssa.Call).Call.Args[1]) == "true" {
